@@ -14,6 +14,7 @@
 (* Value terms are pairs <<class name, parts>>: parts = element value terms (list, set,       *)
 (* frozenset, tuple), <<k, v>> pairs (dict), <<<<class name, <<>>>>>> for class objects ("$class"),     *)
 (* <<>> otherwise ("$fn" = a function / lambda / builtin function).                           *)
+(* <<"$deep", <<>>>> stands for a part of a recorded value that was cut off (unknown), see AdmitsG.   *)
 (* A function VALUE whose signature is known is <<"$def", sig>> with sig a record                *)
 (*   [form, mand, opt, star, kwreq, kwdef, kwargs]: form "def" | "lambda" | "method" (bound),     *)
 (*   mand/opt = number of positional parameters without/with default, star = has *args,         *)
@@ -111,6 +112,10 @@ AdmitsG(H, S, t, v, D) ==
       A1(e) == AdmitsG(H, S, t[3][1], e, D)
       K1(p) == AdmitsG(H, S, t[3][1], p[1], D)
       V2(p) == AdmitsG(H, S, t[3][2], p[2], D) IN
+  (* a value the recorder cut off (<<"$deep", <<>>>>, nesting beyond its bound) is UNKNOWN: in the     *)
+  (* soundness reading every type but the empty one admits it (never an alarm about something that  *)
+  (* was not observed); the exactness reading never meets it                                         *)
+  IF v[1] = "$deep" /\ t[1] \notin {"any", "nothing"} THEN S ELSE
   CASE t[1] = "any" -> TRUE
     [] t[1] = "nothing" -> FALSE
     [] t[1] = "cls" ->
